@@ -82,7 +82,7 @@ TX_TYPE = {"protein_coding": "mRNA", "tRNA": "tRNA", None: None}
 GENOME2 = GENOME.translate(str.maketrans("ACGT", "CATG"))  # same length, different bases everywhere
 
 
-def build_gene_obj(it, S, m, par, tx_qualifiers=None):
+def build_gene_obj(it, S, m, par, tx_qualifiers=None, gene_qualifiers=None):
     F, B = it.enum("CDSFrame"), it.enum("Biotype")
     nm = {0: "ZERO", 1: "ONE", 2: "TWO"}
     txs = []
@@ -95,8 +95,9 @@ def build_gene_obj(it, S, m, par, tx_qualifiers=None):
             txs.append(mk_transcript(it, t["exons"], S[m["strand"]], t["cds"], [F[nm[x]] for x in fr], **kw))
         else:
             txs.append(mk_transcript(it, t["exons"], S[m["strand"]], **kw))
+    gkw = dict(qualifiers={k: list(v) for k, v in gene_qualifiers.items()}) if gene_qualifiers else {}
     return mk_gene(it, txs, gene_id=m["id"], gene_symbol=m["id"] + "_symbol", locus_tag=m["id"] + "_lt", sequence_name="chr1",
-                   parent_or_seq_chunk_parent=par)
+                   parent_or_seq_chunk_parent=par, **gkw)
 
 
 def _case(repo, it, S, spec):
@@ -148,6 +149,20 @@ def _case_on(repo, it, S, spec, genome, stale=False):
                             f"other records: {d_}", f.qual))
         except Raised as ex:
             out.append(("records independent of the hash seed", f"{desc}: raises {ex.exc_name} with multi-valued qualifiers", f.qual))
+        # the identifiers of the source object win over free-form qualifiers that use the same reserved keys (a model parsed from
+        # an older file and re-tagged since): every record carries exactly the current locus tag and symbol
+        g4 = build_gene_obj(it, S, m, par, {"locus_tag": ["OLD_TX_TAG"], "gene": ["old_symbol"]}, {"locus_tag": ["OLD_TAG"], "gene": ["old_symbol"], "note": ["kept"]})
+        k4, v4 = run(it, f, [g4, it.enum("GenbankFlavor")[flavor], True, it.enum("TranslationTable")[table], upd], {}, None)
+        if k4 != "ok":
+            out.append(("source identifiers win over reserved qualifier keys", f"{desc}: with free-form /locus_tag and /gene qualifiers gene_to_feature raises {v4}", f.qual))
+        else:
+            for r4 in it.iterate(v4):
+                q4 = r4.fields["qualifiers"]
+                if list(q4.get("locus_tag", [])) != [m["id"] + "_lt"] or list(q4.get("gene", [])) != [m["id"] + "_symbol"]:
+                    out.append(("source identifiers win over reserved qualifier keys", f"{desc}: the source objects also carry free-form qualifiers "
+                                f"locus_tag=OLD_TAG / gene=old_symbol; the {r4.fields['type']} record is written with /locus_tag {list(q4.get('locus_tag', []))} "
+                                f"/gene {list(q4.get('gene', []))}; the object's identifiers are {m['id']}_lt / {m['id']}_symbol", f.qual))
+                    break
         # force_strand only matters for transcripts on another strand than their gene: on these single-strand models the
         # records are the same with and without it (no transcript skipped)
         g3 = build_gene_obj(it, S, m, par, None)
